@@ -79,7 +79,9 @@ func (n *InfluxQLNode) MarshalJSON() ([]byte, error) {
 			ID:   n.ID(),
 		},
 		Alias: (*Alias)(n),
-		Args:  n.Args,
+		// Copy the arguments, durations are replaced by their string form below
+		// and marshaling must not change the node itself.
+		Args: append([]interface{}(nil), n.Args...),
 	}
 	for i, arg := range raw.Args {
 		switch dur := arg.(type) {
